@@ -152,3 +152,22 @@ def stream_read(stream: "Handle") -> "str":
     trusted("read() without a size returns everything the stream holds (the position is not modelled: taken to be the start)")
     pure()
     ensures("value", same(fs_get(StreamName(stream)), some(result)))
+
+
+@contract("ext:open")
+def builtin_open(file: "str", mode: "str" = "r") -> "Handle":
+    trusted("open(name) for reading gives a stream on exactly that file of the ghost file system and changes nothing; "
+            "OSError when it cannot be opened. (Text decoding with the locale's encoding is not modelled: the ghost "
+            "content of a file is its text.)")
+    pure()
+    raises(OSError)
+    ensures("on-that-file", StreamName(result) == file)
+
+
+@contract("prov.model.ProvDocument.deserialize#from-path", props=["C16"])
+def deserialize_from_path(source: "str", content: "none" = None, format: "str" = "json") -> "ProvDocument":
+    note("source is a file name: the file is opened (`with open(source)`) and handed to the reader")
+    requires("file-exists", fs_get(source) is not None)
+    allocates("Serializer", "ProvDocument")
+    raises(Exception)
+    ensures("reads-exactly-the-file", implies(KnownFormat(format), ContentOf(result) == Parsed(format, the(fs_get(source)))))
